@@ -479,7 +479,27 @@ pub fn c13(ctx: &mut Ctx) {
         let valid = rec.bytes();
         let mut items: Vec<(&'static str, Vec<u8>)> = vec![("valid", valid.clone())];
         // a small record, so that long suffixes still keep the whole buffer interesting
-        items.push(("valid-minimal", Rec::minimal(rec.key, 1).bytes()));
+        let minimal = Rec::minimal(rec.key, 1).bytes();
+        items.push(("valid-minimal", minimal.clone()));
+        // the same bytes under every key type, then again in the reverse order: each type keeps its verdict
+        {
+            let first: Vec<(KT, bool)> = dec::kts().into_iter().map(|kt| (kt, dec::decode_kt(kt, &valid).res.is_ok())).collect();
+            for (kt, was) in first.iter().rev() {
+                let second = dec::decode_kt(*kt, &valid);
+                // (a record handed out although its key cannot be read shows as a panic in the observation)
+                let now = second.res.is_ok() || second.panic.is_some();
+                ctx.count("evaluations");
+                ctx.count("stream.reverse-pass");
+                if let Some(p) = &second.panic {
+                    ctx.violate("C03", "panic", &format!("decode/{}", panic_sig(p)), || format!("decode panicked: {p}"), || json!({"kind": "input", "class": "valid", "entry": "decode", "kt": kt.name(), "hex": hex(&valid)}));
+                }
+                if now != *was {
+                    ctx.violate("C13", "verdict-depends-on-what-was-decoded-before", kt.name(), || format!("{}: the same buffer was accepted={was} first and accepted={now} after the other key types had decoded it", kt.name()), || {
+                        json!({"kind": "input", "class": "valid", "entry": "decode", "kt": kt.name(), "hex": hex(&valid), "note": "reverse key-type order"})
+                    });
+                }
+            }
+        }
         if !cfg!(miri) {
             let muts = gen::structural_mutants(&rec, &mut r);
             for (cls, m) in muts.into_iter().step_by(if q { 9 } else { 3 }) {
@@ -517,6 +537,18 @@ pub fn c13(ctx: &mut Ctx) {
                 let alone = dec::decode_kt(kt, item);
                 if alone.panic.is_some() {
                     continue;
+                }
+                if alone.res.is_err() && kt.reads(scheme) && *item != valid {
+                    // a refused item must not change what the NEXT buffer on the thread decodes to (the smallest
+                    // record of the key: fewer pairs than the refused item)
+                    let again = dec::decode_kt(kt, &minimal);
+                    ctx.count("evaluations");
+                    ctx.count("stream.valid-after-refused");
+                    if again.res.is_err() {
+                        ctx.violate("C13", "valid-record-rejected-after-another-input", &format!("after-{cls}/{}", kt.name()), || {
+                            format!("{}: the valid record is rejected ({:?}) right after a refused item of class {cls}", kt.name(), again.res.as_ref().err())
+                        }, || json!({"kind": "input-pair", "first": hex(item), "second": hex(&minimal), "kt": kt.name(), "class": cls}));
+                    }
                 }
                 for &l in &lens {
                     if cfg!(miri) && ctx.expired() {
